@@ -132,11 +132,11 @@ theorem isAny_cons (e c : Err) (cs : List Err) : e.isAny (c :: cs) = (e.isA c ||
 
 /-! ### three ways to filter with a total predicate -/
 
-theorem filterMAux_total {α} (q : α → Bool) (e : Option Err) : ∀ (l : List α),
+theorem c14_filterMAux_total {α} (q : α → Bool) (e : Option Err) : ∀ (l : List α),
     Stream.filterMAux (fun v => (.ok (q v) : Res Bool)) l e = ⟨l.filter q, e⟩
   | [] => rfl
   | x :: l => by
-    have ih := filterMAux_total q e l
+    have ih := c14_filterMAux_total q e l
     cases hq : q x <;> simp [Stream.filterMAux, hq, ih]
 
 /-- `catch(FilterException)` over `map(lambda x: x if q(x) else raise FilterException)` -/
@@ -183,7 +183,7 @@ theorem filterIdx_total (q : Val → Bool) : ∀ (vs pre : List Val),
 
 theorem filter_lazy_total (q : Val → Bool) (r : RefDS) (vals : List Val) (hs : r.stream = ⟨vals, none⟩) :
     (Ref.filter (fun v => .ok (q v)) r).stream = ⟨vals.filter q, none⟩ := by
-  simp only [Ref.filter, Stream.filterM, hs, filterMAux_total]
+  simp only [Ref.filter, Stream.filterM, hs, c14_filterMAux_total]
 
 theorem filter_eager_total (q : Val → Bool) (r : RefDS) (hi : r.indexable = true) (hw : RefWF2 r)
     (vals : List Val) (ho : r.outs = vals.map .ok) (hs : r.stream = ⟨vals, none⟩) :
